@@ -28,7 +28,7 @@ ASSUMPTIONS = [
     "reference interpreter decides which elements are top-level of which instance",
     "django mode + `only`: echo of the owner's id inside fill content is not predicted",
 ]
-BOUNDS = {"quick": {"programs": 12800, "depths": [1, 2, 50, 200], "loop_depths": [1, 50, 700]}, "thorough": {"programs": 80000, "depths": [1, 2, 3, 50, 200, 500, 1000, 2000], "loop_depths": [1, 50, 700, 2000]}}
+BOUNDS = {"quick": {"programs": 12800, "depths": [1, 2, 50, 200], "loop_depths": [1, 50, 700]}, "thorough": {"programs": 200000, "depths": [1, 2, 3, 50, 200, 500, 1000, 2000], "loop_depths": [1, 50, 700, 2000]}}
 CFG = {"elems": True, "idecho": True, "errors": False, "isfilled": False, "max_nodes": 4}
 
 
@@ -262,7 +262,7 @@ def attribute(case, message, bucket):
 def plan(tier, seed, scale=1.0):
     b = BOUNDS[tier]
     n = max(16, int(b["programs"] * scale))
-    shards = 16 if tier == "quick" else 32
+    shards = 16 if tier == "quick" else 128
     specs = [{"kind": "main", "n": n // shards, "seed": derive_seed(seed, "c14", sh)} for sh in range(shards)]
     for d in b["depths"]:
         specs.append({"kind": "chain", "depth": d})
